@@ -1587,8 +1587,15 @@ class P(Prop):
             if not self.ambient:
                 T.setReadFormat(case["rfmt"])
             files = []
-            for i in range(len(all_rows)):
-                path = os.path.join(d, "track_output_%d.csv" % i)
+            fnames = ["track_output_%d.csv" % i for i in range(len(all_rows))]
+            listing = sorted(os.listdir(d))
+            names_differ = sorted(fnames) != listing and len(listing) == len(fnames)
+            if names_differ:
+                # one file per track, under other names than track_output_<i>.csv: the property does not name the files; they are
+                # read in the order of their names and matched with the tracks as a multiset (the correspondence check reports it)
+                fnames = listing
+            for fname in fnames:
+                path = os.path.join(d, fname)
                 try:
                     with open(path, newline="") as fh:
                         text = fh.read()
@@ -1605,7 +1612,10 @@ class P(Prop):
                 dirread = [self.obs_rows(cb[i]) for i in range(cb.size())]
             except Exception as e:
                 dirread = self.ekind(e)
-            return {"text": files[0]["text"], "read": files[0]["read"], "others": files[1:], "nfiles": len(os.listdir(d)), "dir": dirread}
+            out = {"text": files[0]["text"], "read": files[0]["read"], "others": files[1:], "nfiles": len(os.listdir(d)), "dir": dirread}
+            if names_differ:
+                out["names_differ"] = listing
+            return out
         finally:
             shutil.rmtree(d, True)
 
@@ -1944,6 +1954,8 @@ class P(Prop):
             return None if impl_out == model_out else "impl=%s model=%s" % (str(impl_out)[:300], str(model_out)[:300])
         if "werr" in impl_out or "werr" in model_out:
             return None if impl_out.get("werr") == model_out.get("werr") else "writer: impl=%s model=%s" % (str(impl_out)[:200], str(model_out)[:200])
+        if impl_out.get("names_differ"):
+            return "the files of the collection are called %s, not track_output_<i>.csv" % impl_out["names_differ"][:5]
         if impl_out["text"] != model_out["text"]:
             a, b = impl_out["text"], model_out["text"]
             i = next((j for j in range(min(len(a), len(b))) if a[j] != b[j]), min(len(a), len(b)))
@@ -2135,7 +2147,16 @@ class P(Prop):
             if case.get("more"):
                 if out.get("nfiles") != 1 + len(case["more"]) or len(out.get("others", [])) != len(case["more"]):
                     return "writeToCsv(collection): %d tracks, %s files" % (1 + len(case["more"]), out.get("nfiles"))
+                if out.get("names_differ"):
+                    left = [case["rows"]] + case["more"]
+                    for fname, got in zip(out["names_differ"], [out["read"]] + [fo["read"] for fo in out["others"]]):
+                        hit = next((i for i, rows in enumerate(left) if self.check_rows(rows, got, case["q"], case["srid"], "csv", ids["U"] != -1, ids["T"] != -1, "") is None), None)
+                        if hit is None:
+                            return "writeToCsv(collection): the file %s, read back as %s, is none of the tracks written" % (fname, str(got)[:300])
+                        left.pop(hit)
                 for j, (rows, fo) in enumerate(zip(case["more"], out["others"])):
+                    if out.get("names_differ"):
+                        break
                     m = self.check_rows(rows, fo["read"], case["q"], case["srid"], "csv", ids["U"] != -1, ids["T"] != -1,
                                         "CSV collection file track_output_%d.csv sep %r h=%d ids %s" % (j + 1, case["sep"], case["h"], ids))
                     if m:
@@ -2153,7 +2174,7 @@ class P(Prop):
                     if hit is None:
                         return "readFromCsv(directory): the track read back as %s is none of the tracks written" % str(got)[:300]
                     left.pop(hit)
-            for j, rd in enumerate([out["read"]] + out.get("rereads", [])):
+            for j, rd in enumerate([] if out.get("names_differ") else [out["read"]] + out.get("rereads", [])):
                 m = self.check_rows(case["rows"], rd, case["q"], case["srid"], "csv", ids["U"] != -1, ids["T"] != -1,
                                     "CSV %s sep %r h=%d ids %s time format %r%s" % (case["srid"], case["sep"], case["h"], ids, case["pfmt"],
                                                                                   " (read number %d of the file)" % (j + 1) if j else ""))
